@@ -69,8 +69,34 @@ pub fn run_cli(ctx: &Ctx, args: &[String], stdin: Option<&[u8]>, lim: &CliLimits
     run_cli_env(ctx, args, stdin, lim, &[], None)
 }
 
+/// How the child gets its standard input / what its execution environment looks like (beyond env + cwd).
+#[derive(Clone, Debug, Default)]
+pub struct CliExtra {
+    /// stdin is a regular file already positioned `offset` bytes in (the bytes before it are junk)
+    pub stdin_file_at_offset: Option<(String, u64)>,
+    /// stdin is a unix socket fed with these bytes
+    pub stdin_socket: Option<Vec<u8>>,
+    /// stderr is a pseudo-terminal (progress bars draw only then)
+    pub tty_stderr: bool,
+    /// restrict the child to one CPU (sched_setaffinity in the child before exec)
+    pub one_cpu: bool,
+}
+
+thread_local! {
+    static CLI_EXTRA: std::cell::RefCell<CliExtra> = std::cell::RefCell::new(CliExtra::default());
+}
+
+/// run `f` with the given extra settings applied to every run_cli call made by this thread
+pub fn with_cli_extra<T>(x: CliExtra, f: impl FnOnce() -> T) -> T {
+    CLI_EXTRA.with(|c| *c.borrow_mut() = x);
+    let r = f();
+    CLI_EXTRA.with(|c| *c.borrow_mut() = CliExtra::default());
+    r
+}
+
 /// same, with extra environment variables and an optional working directory
 pub fn run_cli_env(ctx: &Ctx, args: &[String], stdin: Option<&[u8]>, lim: &CliLimits, env: &[(&str, &str)], cwd: Option<&str>) -> CliOut {
+    let extra = CLI_EXTRA.with(|c| c.borrow().clone());
     let valgrind = ctx.opt("valgrind").is_some();
     let mut cmd = if valgrind {
         let mut c = Command::new("valgrind");
@@ -81,9 +107,65 @@ pub fn run_cli_env(ctx: &Ctx, args: &[String], stdin: Option<&[u8]>, lim: &CliLi
         Command::new(ctx.cli_path())
     };
     cmd.args(args);
-    cmd.stdin(if stdin.is_some() { Stdio::piped() } else { Stdio::null() });
+    let mut socket_feeder = None;
+    if let Some((path, off)) = &extra.stdin_file_at_offset {
+        use std::io::{Seek, SeekFrom};
+        let mut f = std::fs::File::open(path).expect("stdin file");
+        f.seek(SeekFrom::Start(*off)).expect("seek");
+        cmd.stdin(Stdio::from(f));
+    } else if let Some(data) = &extra.stdin_socket {
+        use std::os::fd::OwnedFd;
+        use std::os::unix::net::UnixStream;
+        let (a, b) = UnixStream::pair().expect("socketpair");
+        let data = data.clone();
+        socket_feeder = Some(std::thread::spawn(move || {
+            let mut a = a;
+            let _ = a.write_all(&data);
+            let _ = a.shutdown(std::net::Shutdown::Both);
+        }));
+        cmd.stdin(Stdio::from(OwnedFd::from(b)));
+    } else {
+        cmd.stdin(if stdin.is_some() { Stdio::piped() } else { Stdio::null() });
+    }
     cmd.stdout(Stdio::piped());
-    cmd.stderr(Stdio::piped());
+    let mut pty_master: Option<std::fs::File> = None;
+    if extra.tty_stderr {
+        use std::os::fd::{FromRawFd, OwnedFd};
+        let mut master: libc::c_int = -1;
+        let mut slave: libc::c_int = -1;
+        let rc = unsafe { libc::openpty(&mut master, &mut slave, std::ptr::null_mut(), std::ptr::null(), std::ptr::null()) };
+        if rc == 0 {
+            cmd.stderr(Stdio::from(unsafe { OwnedFd::from_raw_fd(slave) }));
+            cmd.env("TERM", "xterm");
+            pty_master = Some(unsafe { std::fs::File::from_raw_fd(master) });
+        } else {
+            cmd.stderr(Stdio::piped());
+        }
+    } else {
+        cmd.stderr(Stdio::piped());
+    }
+    if extra.one_cpu {
+        use std::os::unix::process::CommandExt;
+        unsafe {
+            cmd.pre_exec(|| {
+                let mut set: libc::cpu_set_t = std::mem::zeroed();
+                libc::CPU_ZERO(&mut set);
+                // the first CPU this process may run on
+                let mut cur: libc::cpu_set_t = std::mem::zeroed();
+                libc::sched_getaffinity(0, std::mem::size_of::<libc::cpu_set_t>(), &mut cur);
+                let mut chosen = 0;
+                for c in 0..1024 {
+                    if libc::CPU_ISSET(c, &cur) {
+                        chosen = c;
+                        break;
+                    }
+                }
+                libc::CPU_SET(chosen, &mut set);
+                libc::sched_setaffinity(0, std::mem::size_of::<libc::cpu_set_t>(), &set);
+                Ok(())
+            });
+        }
+    }
     cmd.env("RUST_BACKTRACE", "0");
     cmd.env("NO_COLOR", "1");
     for (k, v) in env {
@@ -120,17 +202,33 @@ pub fn run_cli_env(ctx: &Ctx, args: &[String], stdin: Option<&[u8]>, lim: &CliLi
         }));
     }
     let mut so = child.stdout.take().unwrap();
-    let mut se = child.stderr.take().unwrap();
     let t_out = std::thread::spawn(move || {
         let mut v = Vec::new();
         let _ = so.read_to_end(&mut v);
         v
     });
-    let t_err = std::thread::spawn(move || {
-        let mut v = Vec::new();
-        let _ = se.read_to_end(&mut v);
-        v
-    });
+    // the Command still holds the slave end of the pty (if any): drop it so that the master sees EOF
+    drop(cmd);
+    let t_err = match (child.stderr.take(), pty_master) {
+        (Some(mut se), _) => std::thread::spawn(move || {
+            let mut v = Vec::new();
+            let _ = se.read_to_end(&mut v);
+            v
+        }),
+        (None, Some(mut m)) => std::thread::spawn(move || {
+            // reading a pty master ends with EIO once the child side is closed
+            let mut v = Vec::new();
+            let mut buf = [0u8; 4096];
+            loop {
+                match m.read(&mut buf) {
+                    Ok(0) | Err(_) => break,
+                    Ok(n) => v.extend_from_slice(&buf[..n]),
+                }
+            }
+            v
+        }),
+        (None, None) => std::thread::spawn(Vec::new),
+    };
     let mut timed_out = false;
     let mut cpu_exceeded = false;
     let mut stalled = false;
@@ -170,6 +268,9 @@ pub fn run_cli_env(ctx: &Ctx, args: &[String], stdin: Option<&[u8]>, lim: &CliLi
         std::thread::sleep(Duration::from_millis(if polls < 200 { 1 } else { 5 }));
     };
     if let Some(f) = feeder {
+        let _ = f.join();
+    }
+    if let Some(f) = socket_feeder {
         let _ = f.join();
     }
     let stdout = t_out.join().unwrap_or_default();
